@@ -402,6 +402,22 @@ def wnorm(v, w):
     return float(np.sqrt(np.sum(np.asarray(w, float) * np.asarray(v, float) ** 2)))
 
 
+def weak_start(A, wx, wy, leak=2.0 ** -10):
+    """A start vector for the power method that is (almost) orthogonal, in the inner product of
+    (R^n, wx), to the dominant right singular vector of A : (R^n, wx) -> (R^m, wy):
+    v_min + leak * v_max with v_min / v_max the right singular vectors of the smallest (possibly
+    zero) / largest singular value, both of unit wx-norm, signs fixed by 'entry of largest
+    modulus is positive'.  One step of the power method from it sees (almost) nothing of ||A||."""
+    wx = np.asarray(wx, float)
+    B = np.sqrt(np.asarray(wy, float))[:, None] * np.asarray(A, float) / np.sqrt(wx)[None, :]
+    lam, V = np.linalg.eigh(B.T.dot(B))           # ascending eigenvalues of B^T B
+
+    def fix(u):
+        u = u / np.sqrt(wx)                         # back to the coordinates of (R^n, wx)
+        return u if u[np.argmax(np.abs(u))] > 0 else -u
+    return fix(V[:, 0]) + leak * fix(V[:, -1])
+
+
 class Problem(object):
     """min_x f(x) + g(L x) + h(x) on (R^n, wx), L : (R^n, wx) -> (R^m, wy) (all blocks stacked),
     with a dual certificate ystar.  h is smooth (has .grad) or None."""
